@@ -56,7 +56,7 @@ def t5(cx):
     cx.check(len(r) == 1 and norm(r[0].value) == "dtype_dict[dtype.name]", r[0] if r else f, detail="lookup by dtype name", bad_detail="dtype2ctype is not dtype_dict[dtype.name]", sub="dtype_dict")
 
 
-@rule("K1", ["C17", "C08"], "kernel arguments: xobjects are passed as address(current storage)+current offset, arrays as a pointer to their first element with the element's C type")
+@rule("K1", ["C17"], "kernel arguments: xobjects are passed as address(current storage)+current offset, arrays as a pointer to their first element with the element's C type")
 def k1(cx):
     m = cx.m
     fn = m.func("context_cpu::KernelCpu.to_function_arg")
@@ -137,7 +137,12 @@ def k1(cx):
     # refusals: arms that cannot convert raise
     raises = [r for r in own_nodes(fn) if isinstance(r, ast.Raise)]
     cx.check(len(raises) >= 2, fn, construct=f"{len(raises)} refusing arms", detail="unsupported argument kinds raise", bad_detail="an unsupported argument kind no longer raises", sub="refuse")
-    # nobody caches native storage on a handle (C08.R4)
+
+
+@rule("NC", ["C08", "C17"], "nobody caches native storage or addresses: handles keep (buffer object, offset) only")
+def nc(cx):
+    m = cx.m
+    fn = m.func("context_cpu::KernelCpu.to_function_arg")
     bad = 0
     for modname in ("struct", "array", "ref", "string", "hybrid_class", "scalar"):
         for st in ast.walk(m.mod(modname).tree):
@@ -150,6 +155,8 @@ def k1(cx):
                             bad += 1
     if not bad:
         cx.ok(fn, construct="no attribute of a handle is assigned native storage or an address", detail="handles keep (buffer object, offset) only; pointers are derived at call time", sub="no-cache")
+
+
 
 
 @rule("K4", ["C17"], "kernel calls: positional refusal, arity check before conversion, declared order, identity return, cffi signature")
